@@ -263,3 +263,34 @@ Fixpoint tail_remove (l : list Z) : list Z :=
   | x :: r => x :: tail_remove r
   end.
 Definition length_ (l : list Z) : Z := Z.of_nat (length l).
+
+(* ---- vocabulary of the laws (used only in the statements of Properties/C16.v) --- *)
+(* the items at the positions i whose value does not occur before position i *)
+Definition first_occurrences (l : list Z) : list Z :=
+  flat_map (fun i => if memZ (nth i l 0) (firstn i l) then [] else [nth i l 0]) (seq 0 (length l)).
+
+(* the leaves of a nested list, left to right *)
+Inductive leaves_of : tree -> list Z -> Prop :=
+| leaves_leaf z : leaves_of (Leaf z) [z]
+| leaves_node ts ls : Forall2 leaves_of ts ls -> leaves_of (Node ts) (concat ls).
+
+(* s is obtained from l by deleting items *)
+Inductive subseq : list Z -> list Z -> Prop :=
+| subseq_nil : subseq [] []
+| subseq_skip x s l : subseq s l -> subseq s (x :: l)
+| subseq_take x s l : subseq s l -> subseq (x :: s) (x :: l).
+
+(* a group is a non-empty run of one value *)
+Definition run (g : list Z) : Prop := exists v n, g = repeat v (S n).
+
+(* neighbouring groups hold different values *)
+Definition heads_differ (g1 g2 : list Z) : Prop := hd 0 g1 <> hd 0 g2.
+
+(* grading: the item a position points at; when position i may stand before j *)
+Definition value (l : list Z) (i : nat) : Z := nth i l 0.
+(* i may stand before j in the ascending (descending) grade *)
+Definition up_before (l : list Z) (i j : nat) : Prop :=
+  value l i < value l j \/ (value l i = value l j /\ (i <= j)%nat).
+Definition down_before (l : list Z) (i j : nat) : Prop :=
+  value l j < value l i \/ (value l i = value l j /\ (i <= j)%nat).
+
